@@ -392,6 +392,17 @@ def main():
                                                   for s in st), 1) for f in sorted({j["family"] for j in jobs})})
   run.put("errors_seen", sum(len(s["errs"]) for st in results for s in st))
   run.put("exceptions_seen", sum(1 for st in results for s in st if s["obs"][0].startswith("exc:")))
+  # crash messages are not part of the observation; differing ones are logged (never an alarm)
+  for j, st in zip(jobs, results):
+    msgs = {}
+    for s in st:
+      if "excmsg" in s:
+        msgs.setdefault((s["prog"], s["opt"], s["obs"][0]), set()).add(s["excmsg"])
+    for (prog, opt, exc), ms in sorted(msgs.items()):
+      if len(ms) > 1:
+        run.diverge("%s session: program %s (options %s) escapes with %s in every analysis, but with %d different "
+                    "messages, e.g. %r / %r" % (j["family"], prog, opt, exc[4:], len(ms), sorted(ms)[0][:160],
+                                                sorted(ms)[1][:160]))
   for j, st in zip(jobs[:3], results):
     run.sample({"family": j["family"], "seeds": j["seeds"],
                 "history": [[s["proc"], s["prog"], s["opt"], s["mode"], s["warm"]] for s in j["steps"][:6]],
